@@ -67,6 +67,28 @@ Fixpoint upload_issuers (l : list (bytes * (bool * bool))) (st : istate) : istat
 
 End Sha.
 
+(* addLeafToPool as far as C09 needs it. The issuer loop comes FIRST; only then, under poolMu,
+   the leaf is looked up in the current pool, in the pool being sequenced and in the
+   deduplication cache, all keyed by the LEAF alone (certificate or defanged TBS, entry type,
+   issuer key hash), not by the chain. pending_hit: the lookup finds an entry, created by an
+   earlier submission possibly through ANOTHER chain; the request then waits for / gets that
+   entry, whose issuers are the earlier chain's. *)
+Inductive pool_source :=
+| SrcIssuer     (* the issuer error: nothing looked up, nothing pooled *)
+| SrcDedup      (* found pending ("pool") or in the cache ("cache"): the earlier entry is returned *)
+| SrcNew.       (* appended to the pool ("sequencer"), or refused by the pool (C17) *)
+
+Definition add_leaf (sha : bytes -> bytes) (l : list (bytes * (bool * bool))) (pending_hit : bool)
+    (st : istate) : istate * pool_source :=
+  let '(st', ok) := upload_issuers sha l st in
+  (st', if ok then (if pending_hit then SrcDedup else SrcNew) else SrcIssuer).
+
+(* the entry a deduplicated request is answered with: the earlier submission's, which differs
+   from this request's own entry at most in the issuers (the dedup key covers the rest, and
+   PreCertificate is the same leaf) *)
+Definition dedup_entry (e : pending) (earlier_issuers : list bytes) : pending :=
+  mkPending (p_cert e) (p_pre e) (p_ikh e) earlier_issuers (p_precert e).
+
 (* what the rest of the request sees: after an issuer error addLeafToPool returns, WITHOUT
    touching the pool, a wait function that fails at once ("failed to upload issuer"), which the
    status mapping of http.go treats as any other error (WOther: 500) *)
